@@ -128,8 +128,15 @@ Definition get_sampled_st (w : wf) (c : chan) (aid : option N) (ts : list Q) (s 
       else if negb (inb c (channels w)) then (Err EKey, s)
       else match cv w c with
            | Some v => (OK (map (fun _ => Some v) ts), s)
-           | None => if zdiv w c then (Err EZeroDiv, s) else if kerr w c then (Err EKey, s)
-                     else let r := usample w [] c aid ts s in (OK (fst r), snd r)
+           | None =>
+               (* a call that RAISES (ZeroDivisionError inside a table, KeyError inside a transformation) has already
+                  changed the caches on its way: the outermost TransformingWaveform forgot the previous time array
+                  (`_cached_data = dict(); _cached_times = ref(sample_times)`) before the exception (round 5; the state
+                  after the complete evaluation: exact when the transformation call / get_input_channels of the
+                  outermost failing transformation raises, an over-approximation of the touched caches otherwise) *)
+               let r := usample w [] c aid ts s in
+               if zdiv w c then (Err EZeroDiv, snd r) else if kerr w c then (Err EKey, snd r)
+               else (OK (fst r), snd r)
            end
   end.
 
